@@ -131,6 +131,18 @@ def r1_r2(F, R):
         second = [(bb, t, efs) for (bb, t, efs) in calls if W(efs, "velocity") and Rd(efs, "transformed_gradient", is_out)]
         pos = [(bb, t, efs) for (bb, t, efs) in calls if W(efs, "transformed_position") and bb != dbb]
         kin = [(bb, t, efs) for (bb, t, efs) in calls if W(efs, "kinetic_energy") and any(e[2] == "array_vector_dot" for e in efs)]
+        # the same update written in place: `out.kinetic_energy = 0.5 * math.array_vector_dot(&out.velocity, &out.velocity)`
+        for bi_, blk_ in enumerate(b.blocks):
+            if blk_["cleanup"]:
+                continue
+            for st_ in blk_["stmts"]:
+                if st_["k"] == "assign" and st_["pl"]["p"] and isinstance(st_["pl"]["p"][-1], dict) and st_["pl"]["p"][-1].get("n") == "kinetic_energy":
+                    v_ = b.rvalue_value(st_["rv"])
+                    dots = [x for x in vt_walk(v_) if x[0] == "call" and x[3].get("name") == "array_vector_dot"]
+                    tgt_ = E.place_of(F, b, b.place_value(st_["pl"]))
+                    if dots and tgt_ is not None and is_out(tgt_) and all(
+                            (E.place_of(F, b, a_) is not None and is_out(E.place_of(F, b, a_)) and E.place_of(F, b, a_)[1][-1:] == ("velocity",)) for a_ in dots[0][2][1:]):
+                        kin.append((bi_, st_, []))
         from .c05 import agg_blocks
         oks = [bi for (bi, _st) in agg_blocks(b, "LeapfrogResult", "Ok")]
         problems = []
